@@ -123,10 +123,10 @@ def ref_replace2(d: Any, k1: str, m1: Any, k2: str, m2: Any) -> Any:
 
 
 def check_override2(i: int, k: int, args: tuple) -> bool:
-    k1, m1, k2, m2 = PAIRS[k]
+    k1, m1, k2, m2 = gen.pick(PAIRS, k)
     t = gen.build(SHAPES[i]["expr"], args)
     before = gen.decode(t)
-    got = PAIR_CLS[k]().visit(t)
+    got = gen.pick(PAIR_CLS, k)().visit(t)
     return gen.decode(got) == ref_replace2(before, k1, gen.decode(m1), k2, gen.decode(m2)) and gen.decode(t) == before
 
 
@@ -201,7 +201,7 @@ def check_core(i: int, args: tuple) -> bool:
 def check_override(i: int, k: int, args: tuple) -> bool:
     """a transformer with one overridden handler changes exactly the nodes of that kind;
     a visitor with one handler is called exactly once per node of that kind."""
-    kind = OVERRIDE_KINDS[k]
+    kind = gen.pick(OVERRIDE_KINDS, k)
     t = gen.build(SHAPES[i]["expr"], args)
     before = gen.decode(t)
     got = OVERRIDES[kind]().visit(t)
@@ -271,7 +271,7 @@ def check_shipped(i: int, v: int, args: tuple) -> bool:
     """no shipped (pure-Python) visitor modifies the tree it was given, whether it succeeds or raises."""
     t = gen.build(SHAPES[i]["expr"], args)
     before = gen.decode(t)
-    vis = SHIPPED[v][1]
+    vis = gen.pick(SHIPPED, v)[1]
     try:
         vis.visit(t)
     except Exception:
@@ -313,12 +313,12 @@ def _orm_setup() -> None:
 def check_orm(v: int, k: int) -> bool:
     """translating a tree with an ORM backend does not modify it (named parameters included) - so translating the
     same parsed tree twice behaves the same way."""
-    t = ORM_TREES[k]
+    t = gen.pick(ORM_TREES, k)
     before = gen.decode(t)
     outcomes = []
     for _ in range(2):
         try:
-            ORM_VIS[v][1]().visit(t)
+            gen.pick(ORM_VIS, v)[1]().visit(t)
             outcomes.append("ok")
         except Exception as e:  # noqa: BLE001
             outcomes.append(type(e).__name__)
